@@ -293,3 +293,41 @@ func VerifC12EnqueueBatch() {
 	}
 	vrt.Assert("C02.inv.batch", w.inv())
 }
+
+// verif:harness props=C02 tier=quick native=yes weight=20
+// verif:bounds MemoryStore.Enqueue and EnqueueBatch(1..2) from ANY state of N=2 messages (thorough 3) — including states in which requeue/resume has lifted the active count above max_depth — with max_depth 0..N+1, reject|drop_oldest, delivered-retention on/off, memory-pressure item limit {default,1,2}, ids from {existing, fresh}: a call that reports an error has changed nothing
+func VerifC02RefusedEnqueueChangesNothingFromAnyState() {
+	n := 2
+	if vrt.Thorough() {
+		n = 3
+	}
+	w := mNew(n, mOpts{})
+	mConfigureLimits(w)
+	pre := w.snap()
+	mk := func(tag string) Envelope {
+		id := []string{"m0", "m1", "new1", "new2"}[vrt.Choose(tag, 4)]
+		return Envelope{ID: id, Route: "rN", Target: "tN", Payload: []byte("q")}
+	}
+	var err error
+	stored := 0
+	if vrt.Bool("batch") {
+		items := []Envelope{mk("id-1")}
+		if vrt.Bool("two-items") {
+			items = append(items, mk("id-2"))
+		}
+		stored, err = w.s.EnqueueBatch(items)
+	} else {
+		err = w.s.Enqueue(mk("id-1"))
+	}
+	if err == nil {
+		vrt.Cover("anystate.stored")
+		return
+	}
+	vrt.Cover("anystate.refused")
+	post := w.snap()
+	for i := range pre {
+		vrt.Assert("C02.enqueue.a-refused-call-changes-nothing-from-any-state", sameItem(pre[i], post[i]))
+	}
+	vrt.Assert("C02.enqueue.a-refused-call-stores-nothing", stored == 0 && w.s.items["new1"] == nil && w.s.items["new2"] == nil)
+	vrt.Assert("C02.inv.enqueue-refused-any-state", w.inv())
+}
